@@ -83,6 +83,23 @@ def split_cond(e, pol):
             else:
                 return [("notall", [("iflet", e["pat"], e["args"][0], True)] + split_cond(e["guard"], True))]
         return facts_
+    if k == "Paren":
+        return split_cond(e["e"], pol)
+    # canonical atoms: `a != b` is the negation of `a == b`; `x.is_none()` the negation of `x.is_some()`;
+    # `x.is_err()` of `x.is_ok()`; `a > b` is `b < a`, `a >= b` is `b <= a`
+    if k == "Binary" and e["op"] == "!=":
+        e2 = dict(e)
+        e2["op"] = "=="
+        return [("if", e2, not pol)]
+    if k == "Binary" and e["op"] in (">", ">="):
+        e2 = dict(e)
+        e2["op"] = {">": "<", ">=": "<="}[e["op"]]
+        e2["l"], e2["r"] = e["r"], e["l"]
+        return [("if", e2, pol)]
+    if k == "MethodCall" and not e["args"] and e["method"] in ("is_none", "is_err"):
+        e2 = dict(e)
+        e2["method"] = {"is_none": "is_some", "is_err": "is_ok"}[e["method"]]
+        return [("if", e2, not pol)]
     return [("if", e, pol)]
 
 
@@ -97,6 +114,40 @@ def negate(facts_):
         if f[0] == "notall":
             return list(f[1])
     return [("notall", list(facts_))]
+
+
+def _catch_all(pat, other):
+    """is `pat` the complement of `other` for a two-arm match? (`_`, a plain binding, or `None` next to `Some(..)`)"""
+    k = pat["k"]
+    if k == "PWild":
+        return True
+    if k == "PIdent" and pat.get("sub") is None and pat["name"][:1].islower():
+        return True
+    if k in ("PPath", "PIdent") and render(pat).split("::")[-1] == "None" and other["k"] == "PTupleStruct" and render(other).split("(")[0].split("::")[-1] == "Some":
+        return True
+    return False
+
+
+def arm_fact(m, arm):
+    """Fact for being inside `arm` of match `m`.  A two-arm match without guards whose other arm is a catch-all is the
+    same thing as `if let` / `else`: it yields the same fact, so rules do not see the difference."""
+    arms = m["arms"]
+    if len(arms) == 2 and not arms[0]["guard"] and not arms[1]["guard"]:
+        i = 0 if arms[0] is arm else 1
+        me, other = arms[i], arms[1 - i]
+        if render(strip_pat(me["pat"])) in ("true", "false") and render(strip_pat(other["pat"])) in ("true", "false", "_"):
+            return split_cond(m["scrut"], render(strip_pat(me["pat"])) == "true")
+        if _catch_all(other["pat"], me["pat"]) and not _catch_all(me["pat"], other["pat"]):
+            return [("iflet", me["pat"], m["scrut"], True)]
+        if _catch_all(me["pat"], other["pat"]) and not _catch_all(other["pat"], me["pat"]):
+            return [("iflet", other["pat"], m["scrut"], False)]
+    return [("arm", m["scrut"], arm["pat"], arm["guard"])]
+
+
+def strip_pat(p):
+    while p["k"] in ("PRef", "PParen") and "pat" in p:
+        p = p["pat"]
+    return p
 
 
 def exits(stmt, kinds=("return", "continue", "break", "panic")):
@@ -133,7 +184,7 @@ def exits(stmt, kinds=("return", "continue", "break", "panic")):
         if k == "Match":
             rec(n["scrut"], conds, loop_depth)
             for a in n["arms"]:
-                c2 = conds + [("arm", n["scrut"], a["pat"], a["guard"])]
+                c2 = conds + arm_fact(n, a)
                 rec(a["body"], c2, loop_depth)
             return
         if k in ("For", "While", "Loop"):
@@ -201,7 +252,7 @@ def conditions_to(root, target, kinds=("return", "continue", "break", "panic")):
                 conds += split_cond(parent["cond"], False)
         elif k == "Match":
             if slot == "arms":
-                conds.append(("arm", parent["scrut"], child["pat"], child["guard"]))
+                conds += arm_fact(parent, child)
         elif k == "Arm":
             pass
         elif k == "For" and slot == "body":
@@ -217,7 +268,33 @@ def conditions_to(root, target, kinds=("return", "continue", "break", "panic")):
             conds += split_cond(parent["l"], True)
         elif k == "Binary" and parent["op"] == "||" and slot == "r":
             conds += split_cond(parent["l"], False)
-    return conds
+    return resolve_named(conds, path)
+
+
+def resolve_named(conds, path):
+    """`let flag = <condition>; .. if flag {..}`: the fact is the condition, not the name.  Only immutable simple
+    lets on the way to the target are resolved (a `let mut` flag changes its value)."""
+    env = {}
+    for parent, _slot, child in path:
+        if parent["k"] == "Block":
+            for s in parent["stmts"]:
+                if s is child:
+                    break
+                if s["k"] == "Local" and s["pat"]["k"] == "PIdent" and s["init"] is not None and not s["pat"].get("mut") and s.get("else") is None:
+                    env[s["pat"]["name"]] = s["init"]
+    if not env:
+        return conds
+    out = []
+    for f in conds:
+        if f[0] == "if":
+            e = f[1]
+            while e.get("k") == "Paren":
+                e = e["e"]
+            if e.get("k") == "Path" and e["path"] in env and env[e["path"]].get("k") in ("MethodCall", "Macro", "Binary", "Unary", "Call"):
+                out += split_cond(env[e["path"]], f[2])
+                continue
+        out.append(f)
+    return out
 
 
 def fact_str(f):
@@ -352,7 +429,7 @@ def enumerate_paths(node, limit=4000):
             r = []
             prev = []
             for a in n["arms"]:
-                r += one(a["body"], conds + [("arm", n["scrut"], a["pat"], a["guard"])], atoms + [n["scrut"]])
+                r += one(a["body"], conds + arm_fact(n, a), atoms + [n["scrut"]])
             return r
         if k == "Return":
             return [(conds, atoms + ([n["e"]] if n.get("e") else []) + [n], "return")]
